@@ -60,6 +60,8 @@ func genLimit(prop string, r *simrt.SplitMix) *LimitSc {
 		sc.Q = uint64(between(r, 1, 50))
 	}
 
+	hugeQ := r.Intn(12) == 0
+
 	sc.I = int64(pick(r, 1, 2, 3, 10, 100, 1000, 10_000, 1_000_000, 1_000_000_000))
 	if r.Intn(3) == 0 {
 		sc.I = int64(between(r, 1, 10_000))
@@ -154,9 +156,27 @@ func genLimit(prop string, r *simrt.SplitMix) *LimitSc {
 		}
 	}
 
+	if hugeQ {
+		// "practically unlimited": the whole uint64 range is legal
+		sc.Q = pick(r, uint64(1)<<31, uint64(1)<<32+1, uint64(1)<<62, uint64(1)<<63-1, uint64(1)<<63, uint64(1)<<63+1, ^uint64(0))
+	}
+
 	sc.Horizon = limitHorizon(sc)
 
 	return sc
+}
+
+// satMul is a*b, saturating at MaxInt64 (counts in a run are far below that).
+func satMul(a uint64, b int64) int64 {
+	if b <= 0 {
+		return 0
+	}
+
+	if a > uint64(1<<62)/uint64(b) {
+		return 1 << 62
+	}
+
+	return int64(a) * b
 }
 
 func min64(a, b int64) int64 {
@@ -171,7 +191,7 @@ func min64(a, b int64) int64 {
 // all consumer pauses, one interval per batch plus the trailing one, times four.
 func limitHorizon(sc *LimitSc) int64 {
 	n := int64(sc.total())
-	t := sc.I * (n/int64(sc.Q) + 2)
+	t := sc.I * (int64(uint64(n)/sc.Q) + 2)
 
 	for _, b := range sc.Bursts {
 		t += b.Delay
@@ -317,14 +337,14 @@ func checkLimit(prop string, sc *LimitSc, res *simrt.Result) Verdict {
 		}
 	}
 
-	q, iv := int64(sc.Q), sc.I
+	q, iv := sc.Q, sc.I
 
 	switch prop {
 	case "C04":
 		for k, s := range sends {
-			if int64(k+1) > q*(s.t/iv+1) {
+			if int64(k+1) > satMul(q, s.t/iv+1) {
 				v.fail("rate-since-creation", "%d elements had left by t=%dns after creation; limit %d per %dns allows %d",
-					k+1, s.t, q, iv, q*(s.t/iv+1))
+					k+1, s.t, q, iv, satMul(q, s.t/iv+1))
 
 				break
 			}
@@ -335,9 +355,9 @@ func checkLimit(prop string, sc *LimitSc, res *simrt.Result) Verdict {
 
 			for j := i + 1; j < len(sends); j++ {
 				w := sends[j].t - sends[i].t
-				if int64(j-i+1) > q*(w/iv+2) {
+				if int64(j-i+1) > satMul(q, w/iv+2) {
 					v.fail("rate-window", "%d elements left within a window of %dns (elements #%d..#%d at t=%d..%d); limit %d per %dns allows %d",
-						j-i+1, w, i+1, j+1, sends[i].t, sends[j].t, q, iv, q*(w/iv+2))
+						j-i+1, w, i+1, j+1, sends[i].t, sends[j].t, q, iv, satMul(q, w/iv+2))
 
 					bad = true
 
@@ -350,8 +370,12 @@ func checkLimit(prop string, sc *LimitSc, res *simrt.Result) Verdict {
 			}
 		}
 
-		if len(sends) > int(q) {
+		if uint64(len(sends)) > q {
 			v.probe("more-than-one-batch")
+		}
+
+		if q > 1<<30 {
+			v.probe("huge-quantity")
 		}
 
 		if res.Sites != nil {
@@ -401,9 +425,9 @@ func checkLimit(prop string, sc *LimitSc, res *simrt.Result) Verdict {
 
 		if sc.Class == "eager" {
 			for j, s := range sends {
-				if s.t > int64(j)/q*iv {
+				if s.t > int64(uint64(j)/q)*iv {
 					v.fail("extra-throttling", "with everything available up-front element #%d left at t=%dns; rate %d per %dns allows it at t=%dns",
-						j+1, s.t, q, iv, int64(j)/q*iv)
+						j+1, s.t, q, iv, int64(uint64(j)/q)*iv)
 
 					break
 				}
@@ -416,8 +440,12 @@ func checkLimit(prop string, sc *LimitSc, res *simrt.Result) Verdict {
 			v.probe("zero-elements")
 		}
 
-		if len(written) > 0 && int64(len(written))%q == 0 {
+		if len(written) > 0 && uint64(len(written))%q == 0 {
 			v.probe("count-multiple-of-quantity")
+		}
+
+		if q > 1<<30 {
+			v.probe("huge-quantity")
 		}
 	case "C19", "C20":
 		checkGoroutines(&v, res, outClosed, "output closed", false)
@@ -511,7 +539,7 @@ func shrinkLimit(sc *LimitSc) []any {
 		add(func(c *LimitSc) { c.InCap = c.Prefill })
 	}
 
-	if sc.Q > 1 {
+	if sc.Q > 1 && sc.Q < 1<<30 {
 		add(func(c *LimitSc) { c.Q-- })
 	}
 
